@@ -825,7 +825,17 @@ func (ctx *RenderContext) EvaluateExpression(node Node) (interface{}, error) {
 		// We can't use pooling with defer here because the map is returned directly
 		result := make(map[string]interface{}, len(n.items))
 
-		for k, v := range n.items {
+		// Pairs are evaluated in source order, so that a repeated key and the
+		// first error are the same on every render
+		keys := n.keys
+		if len(keys) != len(n.items) {
+			keys = keys[:0:0]
+			for k := range n.items {
+				keys = append(keys, k)
+			}
+		}
+		for _, k := range keys {
+			v := n.items[k]
 			// Evaluate the key
 			keyVal, err := ctx.EvaluateExpression(k)
 			if err != nil {
